@@ -1,5 +1,6 @@
 import HecsModel.Lemmas.WorldEffectsFrame
 import HecsModel.Props.C09
+import HecsModel.Generated.Facts
 /-
   C01 — World is observationally a map Entity → set of typed components: what each operation does
   to the map.
@@ -346,5 +347,45 @@ example : (C09.exWorld.spawnAt ⟨0, 7⟩ [(5, 50)]).1.lookup ⟨0, 1⟩ = none 
 example : (C09.exWorld.spawnAt ⟨0, 7⟩ [(5, 50)]).2.dropped = [(1, 10), (2, 20)] := by decide +kernel
 example : (C09.exWorld.spawnColumnBatchAt [⟨0, 7⟩, ⟨5, 2⟩] [4] [[(4, 1)], [(4, 2)]]).1.lookup ⟨5, 2⟩
     = some [(4, 2)] := by decide +kernel
+
+/-! ### `Extend<B>` and `FromIterator<B>` -/
+
+/-- `<World as Extend<B>>::extend`: one `spawn` per item -/
+def extend (w : World) : List (List Comp) → World × List Out
+  | [] => (w, [])
+  | r :: rs => ((extend (w.spawn r).1 rs).1, (w.spawn r).2 :: (extend (w.spawn r).1 rs).2)
+
+/-- the source says so (regenerated from `world.rs` on every run) -/
+theorem extend_source : Generated.extendBody = ["for x in iter", "self.spawn(x)"] := by decide
+
+/-- … and `from_iter` is `extend` on `World::new()` -/
+theorem fromIter_source :
+    Generated.fromIterBody = ["let mut world = World::new()", "world.extend(iter)", "world"] := by decide
+
+/-- `extend` is the op sequence the trace presents to the model: one `spawn` step per item, so every
+theorem about `step`/`run` applies to it -/
+theorem extend_eq_steps (w : World) (rows : List (List Comp)) :
+    (extend w rows).1 = (rows.map Op.spawn).foldl (fun w op => (step w op).1) w := by
+  induction rows generalizing w with
+  | nil => rfl
+  | cons r rs ih => simp only [extend, List.map_cons, List.foldl_cons, step]; exact ih _
+
+theorem extend_inv (w : World) (rows : List (List Comp)) (hw : w.Inv)
+    (hrows : ∀ r, r ∈ rows → (Op.spawn r).WF) : (extend w rows).1.Inv := by
+  induction rows generalizing w with
+  | nil => exact hw
+  | cons r rs ih =>
+    simp only [extend]
+    exact ih _ (World.inv_step w (.spawn r) (hrows r (List.mem_cons_self ..)) hw)
+      (fun r' h => hrows r' (List.mem_cons_of_mem _ h))
+
+/-- an empty `extend` does nothing at all — unlike `spawn_batch` of an empty iterator, it does not
+even materialise outstanding reservations (it adds no entity, so C16 does not ask it to) -/
+theorem extend_nil (w : World) : extend w [] = (w, []) := rfl
+
+example : ((extend C09.exWorldR [[(3, 5)], [(1, 6), (2, 7)]]).1.lookup ⟨3, 1⟩) = some [(3, 5)] := by decide +kernel
+example : ((extend C09.exWorldR [[(3, 5)], [(1, 6), (2, 7)]]).1.lookup ⟨4, 1⟩) = some [(1, 6), (2, 7)] := by
+  decide +kernel
+example : ((extend C09.exWorldR [[(3, 5)], [(1, 6), (2, 7)]]).1.len) = 5 := by decide +kernel
 
 end Hecs.Props.C01
